@@ -122,6 +122,16 @@ Definition dup_sub_expr (e : expr) : bool :=
   | _ => false
   end.
 
+(* ---------- dupArg (rules.go): `strings.Contains($x, $x)` ... with the .Pure filter; the functions of
+   the rule's list that the fragment models ---------- *)
+Definition dup_arg_prim (p : prim) : bool :=
+  match p with PStrIndex | PStrContains | PStrCompare | PBytesEqual => true | _ => false end.
+Definition dup_arg (e : expr) : bool :=
+  match e with
+  | ECall (FPrim p) [x; y] => dup_arg_prim p && expr_eqb x y && rg_pure x
+  | _ => false
+  end.
+
 (* ---------- caseOrder on type switches ---------- *)
 (* The type lattice is input data: every case entry is (type id, kind); [impl t i] is what
    types.Implements answers for (type t, interface i), also for t = the untyped nil type. *)
@@ -216,6 +226,9 @@ Definition dup_sub_expr_msgs (e : expr) : list string :=
   | EBinary o _ _ => if dup_sub_expr e then ["suspicious identical LHS and RHS for `" ++ binop_str o ++ "` operator"] else []
   | _ => []
   end.
+
+Definition dup_arg_msgs (e : expr) : list string :=
+  if dup_arg e then ["suspicious duplicated args in " ++ print_expr e] else [].
 
 Fixpoint strip_spaces (s : string) : string :=
   match s with
